@@ -763,4 +763,265 @@ theorem function_first_none {x : Cps} (h : reIDENT.first x = none) : reFUNCTION.
   | nil => rfl
   | cons y ys => rw [hm] at h; cases h
 
+
+/-! ## greedy star whose body is not itself kept: one escaped character becomes several iterations -/
+
+theorem starHead_fuel {r : Re} (hn : r.nonNullable = true) : ∀ (n m : Nat) (x : Cps), x.length < n → x.length < m →
+    starHead r n x = starHead r m x := by
+  intro n
+  induction n with
+  | zero => intro m x h; omega
+  | succ n ih =>
+    intro m x h1 h2
+    obtain ⟨m, rfl⟩ : ∃ k, m = k + 1 := ⟨m - 1, by omega⟩
+    simp only [starHead]
+    cases hf : r.first x with
+    | none => rfl
+    | some l1 =>
+      have hpos := Re.first_pos r hn x l1 hf
+      have hbd := Re.first_bounded r x l1 hf
+      simp only
+      rw [ih m (x.drop l1) (by simp only [List.length_drop]; omega) (by simp only [List.length_drop]; omega)]
+
+/-- length of the first match of `r*` (greedy) -/
+def starLen (r : Re) (x : Cps) : Nat := starHead r (x.length + 1) x
+
+theorem first_star' {r : Re} (hn : r.nonNullable = true) (x : Cps) : (Re.star r true).first x = some (starLen r x) :=
+  first_star hn x
+
+theorem starLen_none {r : Re} {x : Cps} (h : r.first x = none) : starLen r x = 0 := by
+  simp [starLen, starHead, h]
+
+theorem starLen_some {r : Re} (hn : r.nonNullable = true) {x : Cps} {l1 : Nat} (h : r.first x = some l1) :
+    starLen r x = l1 + starLen r (x.drop l1) := by
+  have hpos := Re.first_pos r hn x l1 h
+  have hbd := Re.first_bounded r x l1 h
+  unfold starLen
+  rw [show starHead r (x.length + 1) x = (match r.first x with
+    | none => 0
+    | some l1 => l1 + starHead r x.length (x.drop l1)) from rfl, h]
+  simp only
+  rw [starHead_fuel hn x.length ((x.drop l1).length + 1) (x.drop l1) (by simp only [List.length_drop]; omega)
+    (by omega)]
+
+theorem starLen_run {r : Re} (hn : r.nonNullable = true) (y : Cps) : ∀ (run : Cps),
+    (∀ c ∈ run, ∀ z, r.first (c :: z) = some 1) → starLen r (run ++ y) = run.length + starLen r y := by
+  intro run
+  induction run with
+  | nil => intro _; simp
+  | cons c cs ih =>
+    intro h
+    rw [List.cons_append, starLen_some hn (h c List.mem_cons_self _)]
+    simp only [List.drop_one, List.tail_cons, List.length_cons]
+    rw [ih (fun x hx => h x (List.mem_cons_of_mem _ hx))]
+    omega
+
+/-- what the body must do with one escaped character -/
+def StarUnrep (rep : Nat → Bool) (r : Re) : Prop :=
+  ∀ c, rep c = false → c ≤ maxUnicode →
+    (∀ t, r.first (c :: t) = some 1) ∧ ∀ y, starLen r (escChar c ++ y) = (escChar c).length + starLen r y
+
+theorem starLen_pres {rep : Nat → Bool} {r : Re} (hn : r.nonNullable = true) (hH : FirstPresH rep r)
+    (hU : StarUnrep rep r) : ∀ (n : Nat) (s : Cps), s.length < n → Good rep s →
+      starLen r (escape rep s) = elen rep s (starLen r s) := by
+  intro n
+  induction n with
+  | zero => intro s h; omega
+  | succ n ih =>
+    intro s hlen hs
+    cases s with
+    | nil =>
+      have : r.first [] = none := by simp [Re.first, ms_nil_of_nonNullable hn]
+      simp [escape, starLen_none this, elen_zero]
+    | cons c t =>
+      cases hc : rep c with
+      | true =>
+        have hh := hH (c :: t) hs (by intro c' t' e; cases e; exact hc)
+        cases hf : r.first (c :: t) with
+        | none =>
+          rw [hf] at hh
+          rw [starLen_none hf, starLen_none hh, elen_zero]
+        | some l1 =>
+          rw [hf] at hh
+          have hpos := Re.first_pos r hn _ l1 hf
+          have hbd := Re.first_bounded r _ l1 hf
+          rw [starLen_some hn hf, starLen_some hn hh, drop_elen, elen_add]
+          congr 1
+          apply ih _ _ (hs.drop l1)
+          simp only [List.length_drop]; omega
+      | false =>
+        obtain ⟨h1, h2⟩ := hU c hc (hs.m c List.mem_cons_self)
+        have e : escape rep (c :: t) = escChar c ++ escape rep t := by simp [escape, hc]
+        rw [e, h2, starLen_some hn (h1 t)]
+        simp only [List.drop_one, List.tail_cons]
+        rw [ih t (by simp at hlen; omega) hs.tail, elen_add]
+        simp [elen, escape, hc]
+
+theorem firstPres_star_of_H {rep : Nat → Bool} {r : Re} (hn : r.nonNullable = true) (hH : FirstPresH rep r)
+    (hU : StarUnrep rep r) : FirstPres rep (Re.star r true) := by
+  intro s hs
+  rw [first_star' hn, first_star' hn]
+  simp only [Option.map_some, Option.some.injEq]
+  exact starLen_pres hn hH hU _ s (Nat.lt_succ_self _) hs
+
+/-! ## sequence without backtracking into the head -/
+
+/-- every code point of the text is one -/
+def Bnd (x : Cps) : Prop := ∀ c ∈ x, c ≤ maxUnicode
+
+/-- the first match of `a b` is the first match of `a` followed by the first match of `b` (or nothing) -/
+def SeqDet (a b : Re) : Prop :=
+  ∀ x, Bnd x → (Re.seq a b).first x = (a.first x).bind fun l1 => (b.first (x.drop l1)).map (l1 + ·)
+
+theorem seqDet_of_always {a b : Re} (hb : ∀ x, b.ms x ≠ []) : SeqDet a b := fun x _ => first_seq_always hb x
+
+/-- no success of `a` but the first is followed by a success of `b` -/
+def Tight (a b : Re) : Prop :=
+  ∀ x, Bnd x → ∀ l ls, a.ms x = l :: ls → ∀ l' ∈ ls, b.ms (x.drop l') = []
+
+theorem seqDet_of_tight {a b : Re} (h : Tight a b) : SeqDet a b := by
+  intro x hx
+  rw [first_seq_findSome]
+  unfold Re.first
+  cases hm : a.ms x with
+  | nil => rfl
+  | cons l ls =>
+    simp only [List.findSome?_cons, List.head?_cons, Option.bind_some]
+    cases hb : (b.ms (x.drop l)).head? with
+    | some y => rfl
+    | none =>
+      simp only [Option.map_none]
+      apply List.findSome?_eq_none_iff.mpr
+      intro l' hl'
+      simp [h x hx l ls hm l' hl']
+
+theorem escape_bnd {rep : Nat → Bool} {s : Cps} (hs : Good rep s) : Bnd (escape rep s) := by
+  intro c hc
+  have : ∀ (t : Cps), (∀ x ∈ t, x ≤ maxUnicode) → ∀ x ∈ escape rep t, x ≤ maxUnicode := by
+    intro t
+    induction t with
+    | nil => intro _ x hx; simp [escape] at hx
+    | cons d t ih =>
+      intro ht x hx
+      simp only [escape] at hx
+      split at hx
+      · simp only [List.mem_cons] at hx
+        rcases hx with rfl | hx
+        · exact ht _ List.mem_cons_self
+        · exact ih (fun y hy => ht y (List.mem_cons_of_mem _ hy)) x hx
+      · simp only [escChar, List.cons_append, List.append_assoc, List.mem_cons, List.mem_append,
+          List.not_mem_nil, false_or] at hx
+        rcases hx with rfl | hx | rfl | hx
+        · decide
+        · have := EncEscape.hexDigits_upper d x hx
+          simp only [EncEscape.isUpperHex, Bool.or_eq_true, Bool.and_eq_true, decide_eq_true_eq] at this
+          simp only [maxUnicode]; omega
+        · decide
+        · exact ih (fun y hy => ht y (List.mem_cons_of_mem _ hy)) x hx
+  exact this s hs.m c hc
+
+theorem firstPres_seq_det {rep : Nat → Bool} {a b : Re} (ha : FirstPres rep a) (hb : FirstPres rep b)
+    (hd : SeqDet a b) : FirstPres rep (Re.seq a b) := by
+  intro s hs
+  rw [hd _ (escape_bnd hs), hd s hs.m, ha s hs]
+  cases a.first s with
+  | none => rfl
+  | some l1 =>
+    simp only [Option.map_some, Option.bind_some]
+    rw [drop_elen, hb _ (hs.drop l1)]
+    cases b.first (s.drop l1) with
+    | none => rfl
+    | some l2 => simp [elen_add]
+
+/-! ## string bodies: INVALID -/
+
+theorem itemRe_nonNullable (q : Nat) : (itemRe q).nonNullable = true := by
+  simp [itemRe, Re.nonNullable, bsRe]
+
+theorem itemRe_firstPresH (rep : Nat → Bool) (ha : AsciiRep rep) (q : Nat) : FirstPresH rep (itemRe q) := by
+  have hnl : asciiPos nlRe = true := by decide
+  have hhn : asciiPos (Re.seq (Re.rep hexRe 1 6 true) nlRe) = true := by decide
+  exact firstPresH_alt (firstPresH_cls rep _ _)
+    (firstPresH_alt (firstPresH_seq_bs (firstPres_of_same (asciiPos_sound rep ha _ hnl)).toH)
+      (firstPresH_seq_bs (firstPresH_alt (firstPres_of_same (asciiPos_sound rep ha _ hhn)).toH
+        (firstPresH_cls rep _ _))))
+
+theorem item_first_ordinary (q c : Nat) (z : Cps) (h : ordinary q c = true) : (itemRe q).first (c :: z) = some 1 := by
+  have hc : c ≠ 92 := by
+    intro e; subst e; simp [ordinary] at h
+  simp [Re.first, item_ms, itemLens, hc, h]
+
+theorem item_first_bs_hex (q d : Nat) (ds y : Cps) (hd : EncEscape.isUpperHex d = true)
+    (hds : ∀ x ∈ ds, EncEscape.isUpperHex x = true) (hlen : ds.length ≤ 5) :
+    (itemRe q).first (92 :: d :: (ds ++ 32 :: y)) = some 2 := by
+  have hdh := isHex_of_upper d hd
+  have hrun : runLen isHex (ds ++ 32 :: y) 5 = ds.length :=
+    runLen_append_stop isHex 32 y (by decide) ds 5 (fun x hx => isHex_of_upper x (hds x hx)) hlen
+  have hnl : isNl d = false := by
+    simp only [EncEscape.isUpperHex, Bool.or_eq_true, Bool.and_eq_true, decide_eq_true_eq] at hd
+    simp only [isNl, Bool.or_eq_false_iff, beq_eq_false_iff_ne]
+    omega
+  have e1 : nlLens (d :: (ds ++ 32 :: y)) = [] := nlLens_hex d _ hdh
+  have e2 : nlLens ((ds ++ 32 :: y).drop ds.length) = [] := by rw [List.drop_left]; simp [nlLens]
+  simp only [Re.first, item_ms, itemLens]
+  have e3 : nlLens (32 :: y) = [] := by simp [nlLens]
+  simp [e1, hdh, hrun, e3, hnl]
+
+theorem upper_ordinary (q c : Nat) (hq : q = 34 ∨ q = 39) (h : EncEscape.isUpperHex c = true ∨ c = 32) :
+    ordinary q c = true := by
+  simp only [EncEscape.isUpperHex, Bool.or_eq_true, Bool.and_eq_true, decide_eq_true_eq] at h
+  simp only [ordinary, Bool.not_eq_true', Bool.or_eq_false_iff, beq_eq_false_iff_ne]
+  omega
+
+theorem unrep_ordinary {rep : Nat → Bool} (ha : AsciiRep rep) (q c : Nat) (hq : q = 34 ∨ q = 39)
+    (hc : rep c = false) : ordinary q c = true := by
+  have := unrep_ge ha hc
+  simp only [ordinary, Bool.not_eq_true', Bool.or_eq_false_iff, beq_eq_false_iff_ne]
+  omega
+
+theorem itemRe_starUnrep (rep : Nat → Bool) (ha : AsciiRep rep) (q : Nat) (hq : q = 34 ∨ q = 39) :
+    StarUnrep rep (itemRe q) := by
+  intro c hc hmax
+  refine ⟨fun t => item_first_ordinary q c t (unrep_ordinary ha q c hq hc), ?_⟩
+  intro y
+  have hup := EncEscape.hexDigits_upper c
+  have hlen := EncEscape.hexDigits_length_le6 c hmax
+  have hne : hexDigits c ≠ [] := hexDigitsF_ne_nil c c
+  cases hH : hexDigits c with
+  | nil => exact absurd hH hne
+  | cons d ds =>
+    rw [hH] at hup hlen
+    have hn := itemRe_nonNullable q
+    have h1 := item_first_bs_hex q d ds y (hup d List.mem_cons_self)
+      (fun x hx => hup x (List.mem_cons_of_mem _ hx)) (by simp at hlen; omega)
+    have e : escChar c ++ y = 92 :: d :: (ds ++ 32 :: y) := by simp [escChar, hH]
+    rw [e, starLen_some hn h1]
+    simp only [List.drop_succ_cons, List.drop_zero]
+    have e2 : ds ++ 32 :: y = (ds ++ [32]) ++ y := by simp
+    rw [e2, starLen_run hn y (ds ++ [32])]
+    · simp [escChar, hH]; omega
+    · intro x hx z
+      apply item_first_ordinary
+      apply upper_ordinary q x hq
+      simp only [List.mem_append, List.mem_singleton] at hx
+      rcases hx with hx | hx
+      · exact Or.inl (hup x (List.mem_cons_of_mem _ hx))
+      · exact Or.inr hx
+
+theorem strBody_firstPres (rep : Nat → Bool) (ha : AsciiRep rep) (q : Nat) (hq : q = 34 ∨ q = 39) :
+    FirstPres rep (strBody q) :=
+  firstPres_star_of_H (itemRe_nonNullable q) (itemRe_firstPresH rep ha q) (itemRe_starUnrep rep ha q hq)
+
+theorem quote_same (rep : Nat → Bool) (ha : AsciiRep rep) (q : Nat) (hq : q = 34 ∨ q = 39) :
+    Same rep (Re.cls false [(q, q)]).ms := by
+  apply asciiPos_sound rep ha
+  rcases hq with rfl | rfl <;> decide
+
+/-- INVALID (an unterminated string) keeps its first match -/
+theorem invalid_firstPres (rep : Nat → Bool) (ha : AsciiRep rep) : FirstPres rep reINVALID := by
+  rw [reINVALID_shape]
+  exact firstPres_alt
+    (firstPres_seq_same (quote_same rep ha 34 (Or.inl rfl)) (strBody_firstPres rep ha 34 (Or.inl rfl)))
+    (firstPres_seq_same (quote_same rep ha 39 (Or.inr rfl)) (strBody_firstPres rep ha 39 (Or.inr rfl)))
+
 end CssVerif.EncTok
